@@ -12,7 +12,10 @@
 //                EAGAIN / EINTR / an error / a short count) + optional rt::obs of the result
 //   close        pass-through; drops the shadow registrations of the fd; a close() that fails
 //                with EBADF on a managed thread is reported (double release)
-// Pipes, eventfd, timerfd and the epoll instance itself are REAL kernel objects.
+//   timerfd_create / timerfd_settime   (C07) a managed thread's timerfd runs on rt's VIRTUAL clock: the
+//                descriptor is an eventfd that epoll_wait makes readable when the virtual clock has reached
+//                the armed deadline; a thread blocked in epoll_wait lets the clock advance to that deadline
+// Pipes, eventfd and the epoll instance itself are REAL kernel objects.
 // Unmanaged threads (the exploration driver, stdio) pass straight through.
 #pragma once
 #include <cstddef>
